@@ -129,7 +129,7 @@ def mstep (m : MState) (op : SOp) (cap' : Int) : M (MState × Out × List String
         ++ (if rsv.isSome then ["needmore-payload"] else [])
       match ob.out with
       | .needMore =>
-          let t := if rsv.isSome then [] else if c'.buf.ri = 0 then ["needmore-header"] else ["needmore-ext-or-mask"]
+          let t := if rsv.isSome then [] else if c'.buf.ri = 0 then [] else ["needmore-ext-or-mask"]
           pure ({ m with c := c' }, .out .needMore, tags ++ t)
       | .tooBig =>
           let neg : Bool := match PayloadLength ((c'.buf.data.drop c'.buf.si.toNat).take c'.buf.ri.toNat) with
